@@ -1,5 +1,6 @@
 import ScrapliProps.C01Lemmas
 import ScrapliProps.C01
+import ScrapliProps.C02Timed
 /-
   C02 — results do not depend on how device output is chunked or decorated.
   Property theorems only.  Quantifiers: every two cut lists / piece lists of the same stream;
@@ -979,5 +980,180 @@ theorem readUntilInput_rough_exact (input s : Bytes)
 /-- non-vacuity: input "Sh x" (squished "shx"), echo stream "~S\x08 H^ ~ X" read as "~S\x08" · " H^ ~" · " X" -/
 example : echoPart (squish [83, 104, 32, 120]) [126, 83, 8, 32, 72, 94, 32, 126, 32, 88] = squish [83, 104, 32, 120] := by
   decide
+
+/-! ### the timed read loop (`send_input_and_read` → `_read_until_prompt_or_time`)
+
+  A transport read that times out inside this loop is swallowed (`with suppress(ScrapliTimeout)`): the line
+  going quiet for a whole transport timeout, at any point of the response, is one more way in which the same
+  device byte stream can reach the channel differently.  `pauses` ranges over every pattern of such quiet
+  intervals, `cuts` over every segmentation. -/
+
+/-- **quiet intervals are invisible**: with a clock that does not run out, the timed read returns the buffer
+    of the plain read over the same bytes, leaves the same bytes unread and the same bytes held back — for
+    every pause pattern, every segmentation and every stop test that is not already true of the empty buffer -/
+theorem timed_pauses_invisible (stop : Bytes → Bool) (h0 : stop [] = false) (pauses : List Bool) (w : Wire) :
+    Wire.readUntilTimed stop pauses none w = Wire.readUntil stop w :=
+  readUntilTimed_eq stop h0 pauses w
+
+/-- **whatever ends the timed loop** — an expected output, the prompt, or the clock — what it returns is
+    exactly the pieces it consumed, in order (with `raw` returned and the rest unread nothing of the device's
+    stream is lost or duplicated when the duration runs out mid-response) -/
+theorem timed_returns_what_it_read (stop : Bytes → Bool) (es : List (Option Bytes)) (clock : Option Nat)
+    (buf : Bytes) (k : Nat) (h : timedLoop stop [] es clock = some (buf, k)) :
+    buf = ((es.filterMap id).take k).flatten := by
+  simpa using timedLoop_result_eq stop es [] buf clock k h
+
+/-- **`send_input_and_read` = `send_input`** whenever the expected outputs do not show up in the response
+    and the duration does not run out: same raw and processed result, same writes, same wire afterwards,
+    for every pause pattern (any device, any pattern: no hypothesis on either) -/
+theorem send_and_read_eq_send_input {σ : Type} (cfg : Cfg) (dev : σ → Bytes → σ × Bytes) (input : Bytes)
+    (stripPrompt : Bool) (outs : List Bytes) (outPat : Pat) (pauses : List Bool) (s : Wire × σ)
+    (raw proc : Bytes) (st : Wire × σ)
+    (h : sendInput cfg dev input stripPrompt false false s = some ((raw, proc), st))
+    (hb0 : promptSeen cfg.prompt cfg.depth [] = false)
+    (hq : ∀ b, b <+: raw → outsSeen cfg outs outPat b = false) :
+    sendInputAndRead cfg dev input stripPrompt outs outPat pauses none s = some ((raw, proc), st) := by
+  have hrw : sendInput cfg dev input stripPrompt false false s =
+      (match (if input.isEmpty then some (Wire.write dev s input).1
+              else (Wire.readUntil (inputSeen cfg.rough input) (Wire.write dev s input).1).map (·.2)) with
+       | none => none
+       | some w1 =>
+         match Wire.readUntil (promptSeen cfg.prompt cfg.depth) (Wire.write dev (w1, (Wire.write dev s input).2) cfg.ret).1 with
+         | none => none
+         | some (buf, w2) => some ((buf, processOutput cfg buf stripPrompt), (w2, (Wire.write dev (w1, (Wire.write dev s input).2) cfg.ret).2))) := rfl
+  rw [hrw] at h
+  unfold sendInputAndRead
+  simp only
+  generalize (if input.isEmpty then some (Wire.write dev s input).1
+      else (Wire.readUntil (inputSeen cfg.rough input) (Wire.write dev s input).1).map (·.2)) = o at h ⊢
+  cases o with
+  | none => simp at h
+  | some w1 =>
+    simp only at h ⊢
+    cases hr : Wire.readUntil (promptSeen cfg.prompt cfg.depth) (Wire.write dev (w1, (Wire.write dev s input).2) cfg.ret).1 with
+    | none => simp [hr] at h
+    | some r =>
+      simp only [hr, Option.some.injEq, Prod.mk.injEq] at h
+      obtain ⟨⟨h1, h2⟩, h3⟩ := h
+      have h0 : timedStop cfg outs outPat [] = false := by
+        unfold timedStop
+        rw [hq [] List.nil_prefix, hb0]; rfl
+      rw [readUntilTimed_eq _ h0]
+      have := readUntil_congr (timedStop cfg outs outPat) (promptSeen cfg.prompt cfg.depth) _ r.2 r.1
+        (by rw [hr]) (by
+          intro b hb
+          unfold timedStop
+          rw [hq b (by rw [← h1]; exact hb)]; rfl)
+      rw [this]
+      simp only
+      rw [← h1, ← h2, ← h3]
+
+/-- **C02 for `send_input_and_read` against the causal line device**: for EVERY segmentation of the reads
+    (`w.cuts`) and EVERY pattern of quiet intervals (`pauses`), a command inside the quantifier whose expected
+    outputs are foreign to its response returns exactly `expected` — a function of the command alone —,
+    writes the input and one return, and leaves only trailing blanks unread -/
+theorem send_and_read_exact {P : Bytes → Bool} {cfg : Cfg} {dv : LineDev} (hf : Fits P cfg dv)
+    (input : Bytes) (hg : GoodCmd P dv input) (stripPrompt : Bool) (outs : List Bytes) (outPat : Pat)
+    (hquiet : ∀ (L t' b : Bytes), (∀ x ∈ L, isWs x = true) → t' <+: dv.trail →
+      b <+: L ++ dv.rbody input ++ NL :: dv.prompt ++ t' → outsSeen cfg outs outPat b = false)
+    (pauses : List Bool) (w : Wire) (hres : ∀ x ∈ w.avail, isHws x = true) (hheld : w.held = []) :
+    ∃ raw w', sendInputAndRead cfg dv.onWrite input stripPrompt outs outPat pauses none (w, []) =
+        some ((raw, expected cfg dv stripPrompt input), (w', [])) ∧
+      w'.writes = w.writes ++ [input, cfg.ret] ∧ (∀ x ∈ w'.avail, isHws x = true) ∧ w'.held = [] := by
+  obtain ⟨raw, w', hs, ⟨L, t', hL, ht, hraw⟩, hw, ha, hh⟩ := send_input_exact hf input hg stripPrompt w hres hheld
+  refine ⟨raw, w', ?_, hw, ha, hh⟩
+  apply send_and_read_eq_send_input cfg dv.onWrite input stripPrompt outs outPat pauses (w, []) raw _ _ hs
+  · unfold promptSeen
+    have : processReadBuf cfg.depth [] = [] := by
+      obtain ⟨a, c, h⟩ := processReadBuf_infix cfg.depth []
+      have h' : a = [] ∧ processReadBuf cfg.depth [] = [] ∧ c = [] := by simpa using h
+      exact h'.2.1
+    rw [this, hf.search_lines]
+    have hb := hf.blank [] rfl
+    simp [splitNL, hb]
+  · intro b hb
+    exact hquiet L t' b hL ht (by rw [← hraw]; exact hb)
+
+/-- hence: two runs of the same command that differ in segmentation AND in where the line went quiet
+    return the same processed result and write the same bytes -/
+theorem send_and_read_chunk_pause_indep {P : Bytes → Bool} {cfg : Cfg} {dv : LineDev} (hf : Fits P cfg dv)
+    (input : Bytes) (hg : GoodCmd P dv input) (stripPrompt : Bool) (outs : List Bytes) (outPat : Pat)
+    (hquiet : ∀ (L t' b : Bytes), (∀ x ∈ L, isWs x = true) → t' <+: dv.trail →
+      b <+: L ++ dv.rbody input ++ NL :: dv.prompt ++ t' → outsSeen cfg outs outPat b = false)
+    (pauses₁ pauses₂ : List Bool) (w₁ w₂ : Wire) (hw : w₁.writes = w₂.writes)
+    (h₁ : ∀ x ∈ w₁.avail, isHws x = true) (h₂ : ∀ x ∈ w₂.avail, isHws x = true)
+    (hh₁ : w₁.held = []) (hh₂ : w₂.held = []) :
+    ∃ (raw₁ raw₂ proc₁ proc₂ : Bytes) (v₁ v₂ : Wire),
+      sendInputAndRead cfg dv.onWrite input stripPrompt outs outPat pauses₁ none (w₁, []) = some ((raw₁, proc₁), (v₁, [])) ∧
+      sendInputAndRead cfg dv.onWrite input stripPrompt outs outPat pauses₂ none (w₂, []) = some ((raw₂, proc₂), (v₂, [])) ∧
+      proc₁ = proc₂ ∧ v₁.writes = v₂.writes := by
+  obtain ⟨raw₁, v₁, e₁, hw₁, _, _⟩ := send_and_read_exact hf input hg stripPrompt outs outPat hquiet pauses₁ w₁ h₁ hh₁
+  obtain ⟨raw₂, v₂, e₂, hw₂, _, _⟩ := send_and_read_exact hf input hg stripPrompt outs outPat hquiet pauses₂ w₂ h₂ hh₂
+  exact ⟨raw₁, raw₂, _, _, v₁, v₂, e₁, e₂, rfl, by rw [hw₁, hw₂, hw]⟩
+
+/-- **without expected outputs the timed loop ends with its first iteration**: `_join_and_compile([])` is the
+    empty pattern, which is found in every buffer — so `send_input_and_read(cmd)` with no `expected_outputs`
+    returns whatever the first read delivered, and its result DOES depend on the segmentation (advisory:
+    `send_input_and_read` is not among the operations C02 lists; stated here so that the model says it) -/
+theorem timed_no_outputs_first_read (cfg : Cfg) (outPat : Pat) (hall : ∀ b, outPat.search b = true)
+    (acc c : Bytes) (es : List (Option Bytes)) (clock : Option Nat) :
+    timedLoop (timedStop cfg [] outPat) acc (some c :: es) clock = some (acc ++ c, 1) := by
+  unfold timedLoop
+  have : timedStop cfg [] outPat (acc ++ c) = true := by
+    unfold timedStop outsSeen; simp [hall]
+  simp only [this, if_true]
+  split <;> rfl
+
+/-! non-vacuity: the example device / pattern / command of C01.lean, expected output "ZZ" (compiled with re.I),
+    arbitrary cuts and arbitrary quiet intervals -/
+
+def tmOuts : List Bytes := [[90, 90]]
+def tmPat : Pat :=                       -- `(ZZ)` compiled with re.I, as a search
+  { search := fun w => isInfixB [90, 90] w || isInfixB [122, 122] w || isInfixB [90, 122] w || isInfixB [122, 90] w,
+    first := fun _ => none, sub := id }
+
+theorem no_infix_of_not_mem {a b : UInt8} {sb : Bytes} (h : a ∉ sb) : isInfixB [a, b] sb = false := by
+  cases hh : isInfixB [a, b] sb with
+  | false => rfl
+  | true => exact absurd (((isInfixB_iff _ _).1 hh).subset (by simp)) h
+
+theorem tm_quiet : ∀ (L t' b : Bytes), (∀ x ∈ L, isWs x = true) → t' <+: exDev.trail →
+    b <+: L ++ exDev.rbody exCmd ++ NL :: exDev.prompt ++ t' → outsSeen exCfg tmOuts tmPat b = false := by
+  intro L t' b hL ht hb
+  -- neither 'Z' nor 'z' occurs in the stream
+  have hstream : ∀ y, y ∈ L ++ exDev.rbody exCmd ++ NL :: exDev.prompt ++ t' → y ≠ 90 ∧ y ≠ 122 := by
+    intro y hy
+    simp only [List.mem_append, List.mem_cons] at hy
+    have hmid : ∀ y, y ∈ exDev.rbody exCmd ++ NL :: exDev.prompt → y ≠ 90 ∧ y ≠ 122 := by decide
+    rcases hy with ((hy | hy) | hy | hy) | hy
+    · have := hL y hy
+      constructor <;> (intro e; subst e; revert this; decide)
+    · exact hmid y (by simp [hy])
+    · exact hmid y (by simp [hy])
+    · exact hmid y (by simp [hy])
+    · have : y ∈ exDev.trail := ht.subset hy
+      have h32 : y = 32 := by simpa [exDev] using this
+      subst h32; decide
+  have h90 : (90 : UInt8) ∉ processReadBuf exCfg.depth b := fun hy =>
+    (hstream 90 (hb.subset ((processReadBuf_infix exCfg.depth b).subset hy))).1 rfl
+  have h122 : (122 : UInt8) ∉ processReadBuf exCfg.depth b := fun hy =>
+    (hstream 122 (hb.subset ((processReadBuf_infix exCfg.depth b).subset hy))).2 rfl
+  unfold outsSeen
+  simp only [tmOuts, tmPat, List.any_cons, List.any_nil, Bool.or_false,
+    no_infix_of_not_mem h90, no_infix_of_not_mem h122, Bool.or_self]
+
+/-- the timed-read theorem applies to a concrete non-trivial instance (output longer than the window, one blank
+    of residue), for arbitrary cuts AND arbitrary quiet intervals -/
+example (cuts : List Nat) (pauses : List Bool) :
+    ∃ raw w', sendInputAndRead exCfg exDev.onWrite exCmd true tmOuts tmPat pauses none ({ avail := [32], cuts := cuts }, []) =
+      some ((raw, expected exCfg exDev true exCmd), (w', [])) ∧ w'.writes = [exCmd, [NL]] :=
+  let ⟨raw, w', h1, h2, _, _⟩ := send_and_read_exact exFits exCmd exGood true tmOuts tmPat tm_quiet pauses
+    { avail := [32], cuts := cuts } (by intro x hx; simp at hx; subst hx; decide) rfl
+  ⟨raw, w', h1, by simpa [exCfg] using h2⟩
+
+/-- and the first-read quirk on concrete bytes: no expected outputs, the response arrives in two reads, the call
+    returns the first one only -/
+example : timedLoop (timedStop exCfg [] { search := fun _ => true, first := fun _ => none, sub := id }) []
+    [some [10, 108, 105], some [110, 101, 10, 114, 49, 35]] none = some ([10, 108, 105], 1) := by decide
 
 end Scrapli.Chan
